@@ -2,7 +2,7 @@
    Statements only; proofs in Proofs/AssembleProofs.v.  spec_wrapper / events / fresh_line: Spec/AssembleSpec.v. *)
 From Coq Require Import ZArith List Bool.
 Require Import Prim.Exn Prim.Bits Prim.PyList Model.Sentence Model.AssembleIter Model.Assemble Spec.AssembleSpec
-               Proofs.AssembleProofs.
+               Proofs.AssembleProofs Proofs.AssembleBounded.
 Import ListNotations.
 Open Scope Z_scope.
 
@@ -82,3 +82,42 @@ Example C18_unrepaired_queue_refuted :
   map (map a_wrapper) (fst (asm_run queue_step_unrepaired asm_init ex_inputs)) <>
   spec_wrapper (asm_events ex_inputs (map has_delivery (fst (asm_run queue_step_unrepaired asm_init ex_inputs)))).
 Proof. split; [vm_compute; reflexivity|vm_compute; discriminate]. Qed.
+
+(* ================================================================ BACKPRESSURE EXTENSION OF THE NMEAQueue CLAUSE
+
+   Bounded queue, puts that may raise queue.Full (queue_step_b, Model/Assemble.v; see Props/C03.v).  put_line takes and
+   clears the pending wrapper BEFORE the put, so a refused message takes its wrapper with it: the wrapper is never
+   attached to a later message.  In the specification a put that was attempted -- accepted or refused -- counts as the
+   delivery that consumes the pending wrapper. *)
+
+(* every sequence of lines, every pattern of accepted / refused puts *)
+Theorem C18_bounded_queue : forall ios : list bq_input, Forall fresh_line (map fst ios) ->
+  let outs := fst (bq_run queue_step_b asm_init ios) in
+  map (map a_wrapper) (map bq_outs outs) =
+  spec_accepted (map bq_accepts (map snd ios)) (spec_wrapper (asm_events (map fst ios) (map bq_attempted outs))).
+Proof. exact bq_wrappers_correct. Qed.
+Print Assumptions C18_bounded_queue.
+
+(* on well-formed schedules, right-hand sides pure specification: the messages on the queue and their wrappers are those
+   of the unbounded reader at the accepted lines; queue.Full exactly at the refused ones *)
+Theorem C18_bounded_schedules : forall s (ios : list bq_input), WF s ->
+  (forall f, In (IFrag f) s -> a_wrapper (sf_sent f) = None) -> map fst ios = schedule_lines s ->
+  exists outs st, bq_run queue_step_b asm_init ios = (outs, Ok st) /\
+    map (map delivery_of) (map bq_outs outs) = spec_accepted (map bq_accepts (map snd ios)) (spec_deliveries s) /\
+    map (map a_wrapper) (map bq_outs outs) =
+      spec_accepted (map bq_accepts (map snd ios)) (spec_wrapper (schedule_events s (spec_deliveries s))) /\
+    map bq_is_full outs = spec_refused (map bq_accepts (map snd ios)) (spec_deliveries s).
+Proof. exact bq_schedule_correct. Qed.
+Print Assumptions C18_bounded_schedules.
+
+(* the inputs above; the put of the assembled message (line 5, wrapper 3) is refused and so is the put of the last single
+   (line 8, wrapper 4): the single at line 6 is delivered WITHOUT a wrapper although wrapper 3 was never delivered *)
+Definition ex_puts : list bq_put :=
+  [BqPutOk; BqPutOk; BqPutOk; BqPutOk; BqPutOk; BqPutFull; BqPutOk; BqPutOk; BqPutFull].
+
+Example C18_bounded_nonvacuous :
+  let outs := fst (bq_run queue_step_b asm_init (combine ex_inputs ex_puts)) in
+  map (fun o => map a_wrapper (bq_outs o)) outs = [ []; []; []; []; []; []; [None]; []; [] ] /\
+  map bq_is_full outs = [false; false; false; false; false; true; false; false; true] /\
+  snd (bq_run queue_step_b asm_init (combine ex_inputs ex_puts)) = Ok ([], None).
+Proof. cbv zeta. split; [|split]; vm_compute; reflexivity. Qed.
